@@ -24,3 +24,9 @@ Proof. vm_compute. split; reflexivity. Qed.
 Example c16_repaired_same_schedule :
   let st := run true [0; 1; 0; 0; 1; 1] (init [100; 200]) in all_done st = true /\ lost st = [].
 Proof. vm_compute. split; reflexivity. Qed.
+
+(* a slot published before its template system exists, with a fast path that does not wait for it (seed C16-5):
+   worker 0 reserves the slot, worker 1 finds it empty and returns "successfully" with its announcement dropped *)
+Example c16_slot_before_system_refuted :
+  let st := run_slot [0; 0; 1; 0; 0] (init [100; 200]) in all_done st = true /\ lost st = [200].
+Proof. vm_compute. split; reflexivity. Qed.
